@@ -1,0 +1,42 @@
+//go:build verif
+
+// Verification hooks (build tag verif): accessors for unexported state used by the
+// runtime monitors under /verif. Not compiled into normal builds.
+
+package xds
+
+import (
+	"time"
+
+	"go.uber.org/atomic"
+
+	"istio.io/istio/pilot/pkg/model"
+)
+
+// DebounceForVerif runs the unexported debounce loop with explicit options.
+func DebounceForVerif(ch chan *model.PushRequest, stopCh <-chan struct{}, debounceAfter, debounceMax time.Duration,
+	enableEDSDebounce bool, pushFn func(req *model.PushRequest), updateSent *atomic.Int64,
+) {
+	debounce(ch, stopCh, DebounceOptions{
+		DebounceAfter:     debounceAfter,
+		debounceMax:       debounceMax,
+		enableEDSDebounce: enableEDSDebounce,
+	}, pushFn, updateSent)
+}
+
+// PushQueueStateForVerif reports how many connections are queued for a push and how many
+// have been dequeued but not yet marked done.
+func (s *DiscoveryServer) PushQueueStateForVerif() (pending, processing int) {
+	p := s.pushQueue
+	p.cond.L.Lock()
+	defer p.cond.L.Unlock()
+	return len(p.pending), len(p.processing)
+}
+
+// SetDebounceForVerif overrides the unexported debounce options of a server that has not
+// been started yet.
+func (s *DiscoveryServer) SetDebounceForVerif(debounceAfter, debounceMax time.Duration, enableEDSDebounce bool) {
+	s.DebounceOptions.DebounceAfter = debounceAfter
+	s.DebounceOptions.debounceMax = debounceMax
+	s.DebounceOptions.enableEDSDebounce = enableEDSDebounce
+}
